@@ -98,6 +98,11 @@ pub struct Shared {
     /// fail the k-th RPC of a kind in auto mode
     pub auto_fail: Option<(RpcKind, usize)>,
     pub auto_kind_count: Mutex<HashMap<RpcKind, usize>>,
+    /// calls injected by the explorer (and by `cancel_on_output`)
+    pub injected: Arc<Mutex<Vec<CallRec>>>,
+    /// (comp, party, after): cancel that party's policy at the moment its output destination is being
+    /// notified (after = false) or right after the notification has been delivered (after = true)
+    pub cancel_on_output: Mutex<Vec<(usize, usize, bool)>>,
 }
 
 impl Shared {
@@ -278,11 +283,38 @@ impl PolicyClient for GatedClient {
             Err(e) => Err(output_err_kind(&e)),
         };
         let failed = self.shared.fail_outputs;
+        let take = |after: bool| -> bool {
+            let mut c = self.shared.cancel_on_output.lock().unwrap();
+            match c.iter().position(|x| *x == (self.comp, self.me, after)) { Some(i) => { c.remove(i); true } None => false }
+        };
+        if take(false) {
+            let h = self.shared.handles.lock().unwrap().get(&(self.comp, self.me)).cloned();
+            if let Some(h) = h {
+                let slot = self.shared.injected.clone();
+                spawn_call(&self.shared, &slot, "cancel", self.comp, self.me, usize::MAX, false, h.cancel());
+            }
+        }
         // a real client suspends while the request is on its way
         tokio::task::yield_now().await;
         tokio::task::yield_now().await;
         let t_done = self.shared.tick();
         self.shared.outputs.lock().unwrap().push(OutputRec { t, comp: self.comp, party: self.me, url: to.to_string(), result, delivery_failed: failed, t_done });
+        if take(true) {
+            let h = self.shared.handles.lock().unwrap().get(&(self.comp, self.me)).cloned();
+            if let Some(h) = h {
+                // poll the cancel call once right here, so that its command is queued before this
+                // party's MPC task gets to queue anything else
+                let mut fut = Box::pin(async move { h.cancel().await });
+                let first = std::future::poll_fn(|cx| std::task::Poll::Ready(fut.as_mut().poll(cx))).await;
+                let slot = self.shared.injected.clone();
+                spawn_call(&self.shared, &slot, "cancel", self.comp, self.me, usize::MAX - 1, false, async move {
+                    match first {
+                        std::task::Poll::Ready(r) => r,
+                        std::task::Poll::Pending => fut.await,
+                    }
+                });
+            }
+        }
         if failed { Err(ClientErr::Injected) } else { Ok(()) }
     }
 }
@@ -314,6 +346,8 @@ pub enum Inject {
     /// consts carrying one (bogus) constant
     ConstsNonEmpty { comp: usize, party: usize, from: usize },
     Validate { comp: usize, party: usize },
+    /// a validate request derived from `alt_policies[alt]` (same computation, other program / leader)
+    ValidateAlt { comp: usize, party: usize, alt: usize },
     MpcMsg { comp: usize, party: usize, from: usize },
     /// `count` MPC messages at once; `from` = the receiving party itself or an unknown index
     MpcMsgBurst { comp: usize, party: usize, from: usize, count: usize },
@@ -328,6 +362,11 @@ pub enum When {
     Step(usize),
     /// at the first idle point at which the program-compile thread is alive
     DuringCompile,
+    /// (cancel only) at the moment the party's output destination is being notified of the result
+    DuringOutput,
+    /// (cancel only) right after the notification has been delivered: the cancel command is queued
+    /// before the party's MPC task can queue anything else
+    AfterOutput,
     /// immediately behind the k-th action of the explorer (schedule submission, delivery of an RPC or
     /// of an MPC message), without waiting for the system to become idle: the injected command is
     /// queued right behind the command that action causes, so it meets the transient state after it
@@ -448,6 +487,8 @@ pub fn explore(sc: &Scenario) -> RunRecord {
             auto_seed: 0,
             auto_fail: None,
             auto_kind_count: Mutex::new(HashMap::new()),
+            injected: Arc::new(Mutex::new(vec![])),
+            cancel_on_output: Mutex::new(sc.injections.iter().filter_map(|(w, i)| match (w, i) { (When::DuringOutput, Inject::Cancel { comp, party }) => Some((*comp, *party, false)), (When::AfterOutput, Inject::Cancel { comp, party }) => Some((*comp, *party, true)), _ => None }).collect()),
         });
         let n_parties = sc.policies.iter().map(|c| c.len()).max().unwrap_or(0);
         let sems: Vec<Arc<Semaphore>> = (0..n_parties).map(|_| Arc::new(Semaphore::new(sc.concurrency))).collect();
@@ -460,7 +501,7 @@ pub fn explore(sc: &Scenario) -> RunRecord {
             }
         }
         let schedule: CallSlot = Arc::new(Mutex::new(vec![]));
-        let injected: CallSlot = Arc::new(Mutex::new(vec![]));
+        let injected: CallSlot = shared.injected.clone();
         let mut to_submit: Vec<(usize, usize)> = vec![];
         for (c, pols) in sc.policies.iter().enumerate() {
             for p in 0..pols.len() {
@@ -493,7 +534,7 @@ pub fn explore(sc: &Scenario) -> RunRecord {
                 let due = match injections[k].0 {
                     When::Step(s) => s == step,
                     When::DuringCompile => extra_threads,
-                    When::After(_) => false,
+                    When::After(_) | When::DuringOutput | When::AfterOutput => false,
                 };
                 if due {
                     let (_, inj) = injections.remove(k);
@@ -699,6 +740,8 @@ pub fn explore_mt(sc: &Scenario, seed: u64) -> RunRecord {
             auto_seed: seed,
             auto_fail: sc.fail_rpc,
             auto_kind_count: Mutex::new(HashMap::new()),
+            injected: Arc::new(Mutex::new(vec![])),
+            cancel_on_output: Mutex::new(vec![]),
         });
         let n_parties = sc.policies.iter().map(|c| c.len()).max().unwrap_or(0);
         let sems: Vec<Arc<Semaphore>> = (0..n_parties).map(|_| Arc::new(Semaphore::new(sc.concurrency))).collect();
@@ -711,7 +754,7 @@ pub fn explore_mt(sc: &Scenario, seed: u64) -> RunRecord {
             }
         }
         let schedule: CallSlot = Arc::new(Mutex::new(vec![]));
-        let injected: CallSlot = Arc::new(Mutex::new(vec![]));
+        let injected: CallSlot = shared.injected.clone();
         let mut rng = ChaCha8Rng::seed_from_u64(seed);
         // schedules after small random delays
         let mut order: Vec<(usize, usize)> = vec![];
@@ -732,7 +775,7 @@ pub fn explore_mt(sc: &Scenario, seed: u64) -> RunRecord {
             timeline.push((rng.random_range(0..1500), Some((c, p)), None));
         }
         for (w, inj) in &sc.injections {
-            let at = match w { When::Step(k) | When::After(k) => *k as u64 * 700 + rng.random_range(0..600), When::DuringCompile => rng.random_range(2000..6000) };
+            let at = match w { When::Step(k) | When::After(k) => *k as u64 * 700 + rng.random_range(0..600), When::DuringCompile | When::DuringOutput | When::AfterOutput => rng.random_range(2000..6000) };
             timeline.push((at, None, Some(inj.clone())));
         }
         timeline.sort_by_key(|x| x.0);
@@ -866,6 +909,11 @@ fn do_inject(shared: &Arc<Shared>, slot: &CallSlot, inj: &Inject, sc: &Scenario,
                     consts.insert("BOGUS".to_string(), Literal::NumUnsigned(1, polytune::garble_lang::token::UnsignedNumType::U8));
                     h.consts(ConstsRequest { from, computation_id: id, consts }).await
                 });
+            }
+        }
+        Inject::ValidateAlt { comp, party, alt } => {
+            if let (Some(h), Some(pol)) = (get(comp, party), sc.alt_policies.get(alt).cloned()) {
+                spawn_call(shared, slot, "validate-alt", comp, party, step, compile_alive, async move { h.validate(ValidateRequest::from(&pol)).await });
             }
         }
         Inject::Validate { comp, party } => {
